@@ -15,7 +15,7 @@ PROP = dict(
          "comment characters, span deletion (one in four applied twice); plus 45 deep-nesting texts (50/100/200 levels of "
          "parentheses, brackets, blocks, ifs, lambdas, matches, unary operators, type arguments, tuple patterns, calls, member "
          "chains, unclosed openers, stray closers) and 21 long texts (100/500-term operator chains, 500 functions, 20 kB "
-         "identifier and non-ASCII string, 50 kB comment, 400-digit numbers, unterminated string and comment). Per text, in a "
+         "identifier and non-ASCII string, 50 kB comment, 400-digit numbers, unterminated string and comment); plus the INFINITE-TYPE family (self-referential definitions through tuple, array, option, result, struct, lambda, call argument, nested combinations, if/match branches, destructuring; recursive, self-valued, mutually recursive and lambda forms, ~290 texts) and the TYPE-ARGUMENT ARITY family (array, option, result, channel, generic struct / enum with 0, <>, too few, exact, too many arguments in let / parameter / return / field / variant / lambda-parameter positions, type declared above and below its use, each against a literal of the type, plus the prefix ending at the annotation, ~1180 texts). Per text, in a "
          "child process: check, compile_bytecode, check_lsp+errors() each under catch_unwind (panic, abort, or no answer after 300 s of own CPU time when re-run alone = "
          "failing input, one per panic site, shrunk to the shortest failing prefix), accept/reject agreement of the three entry "
          "points, and one model case: verif_lex (tokens with byte spans, lexer diagnostics) = Lean tokenizeBytes. "
@@ -27,11 +27,8 @@ PROP = dict(
         "the worker-process harness (harness/src/fework.rs) that attributes a process death to the text being compiled",
     ],
     assumptions=[
-        "confirmed crashes are start-up probes (fecorpus::GATES), run in a child process before the stream: D53 (stack overflow on "
-        "`fn f() { f }`), D54, D55, D56, D57 have been fixed and are regression inputs (a crash is a failing input again); D64 "
-        "(`array<>`), D65 (`PushNil(0); Pop` in the optimizer) and D66 (blanket `implement I for T`) are fixed too (a50312a, 3b6ea2e, 73184d8) and probed at start-up like the others: while such a "
-        "probe still crashes, crashes at the site it reports are counted under its id and named in a note; once it stops crashing "
-        "it gates nothing",
+        "the confirmed crashes (D45, D53, D53b tuple cycle, D54-D57, D60, D64-D66; all fixed) are hard regression inputs "
+        "(fecorpus::GATES), run in a child process before the stream: a crash on any of them is a failing input; nothing is gated",
         "deep nesting is bounded at 200 levels and judged with a 64 MB stack on an opt-level-1 build",
         "single-file programs: imports of the corpus programs are left unresolved",
     ],
